@@ -3,6 +3,7 @@
 package vsync
 
 import (
+	"reflect"
 	"sync"
 
 	rt "github.com/uber-go/tally/v4/verifrt"
@@ -336,6 +337,174 @@ func (p *Pool) Put(x interface{}) {
 	}
 	rt.Point(rt.OpPoolPut, &p.obj, nil)
 	if x != nil {
+		// an object that is put while it is already in the pool will be handed
+		// to two users at once: always a bug, and invisible to a cooperative
+		// scheduler otherwise (no synchronisation between the two users)
+		if v := reflect.ValueOf(x); v.Kind() == reflect.Ptr {
+			for _, it := range p.items {
+				if w := reflect.ValueOf(it); w.Kind() == reflect.Ptr && w.Pointer() == v.Pointer() {
+					panic("verif: object put into a sync.Pool that already holds it (it will be handed to two users)")
+				}
+			}
+		}
 		p.items = append(p.items, x)
 	}
+}
+
+// Map replaces sync.Map. In Controlled mode every operation is a scheduling
+// point on one object (Load and Range are reads, everything else a write).
+type Map struct {
+	real sync.Map
+	obj  rt.Obj
+	m    map[interface{}]interface{}
+	keys []interface{} // insertion order, for a deterministic Range
+}
+
+func (m *Map) ctl(write bool) bool {
+	if !rt.IsControlled() {
+		return false
+	}
+	if rt.Dead() {
+		return true
+	}
+	if m.obj.Fresh() || m.m == nil {
+		m.m = map[interface{}]interface{}{}
+		m.keys = nil
+	}
+	k := rt.OpLoad
+	if write {
+		k = rt.OpStore
+	}
+	rt.Point(k, &m.obj, nil)
+	return true
+}
+
+// Load replaces (*sync.Map).Load.
+func (m *Map) Load(key interface{}) (interface{}, bool) {
+	if !m.ctl(false) {
+		return m.real.Load(key)
+	}
+	v, ok := m.m[key]
+	return v, ok
+}
+
+// Store replaces (*sync.Map).Store.
+func (m *Map) Store(key, value interface{}) {
+	if !m.ctl(true) {
+		m.real.Store(key, value)
+		return
+	}
+	if m.m == nil {
+		return
+	}
+	if _, ok := m.m[key]; !ok {
+		m.keys = append(m.keys, key)
+	}
+	m.m[key] = value
+}
+
+// LoadOrStore replaces (*sync.Map).LoadOrStore.
+func (m *Map) LoadOrStore(key, value interface{}) (interface{}, bool) {
+	if !m.ctl(true) {
+		return m.real.LoadOrStore(key, value)
+	}
+	if m.m == nil {
+		return value, false
+	}
+	if v, ok := m.m[key]; ok {
+		return v, true
+	}
+	m.keys = append(m.keys, key)
+	m.m[key] = value
+	return value, false
+}
+
+// LoadAndDelete replaces (*sync.Map).LoadAndDelete.
+func (m *Map) LoadAndDelete(key interface{}) (interface{}, bool) {
+	if !m.ctl(true) {
+		return m.real.LoadAndDelete(key)
+	}
+	v, ok := m.m[key]
+	delete(m.m, key)
+	return v, ok
+}
+
+// Delete replaces (*sync.Map).Delete.
+func (m *Map) Delete(key interface{}) { m.LoadAndDelete(key) }
+
+// Range replaces (*sync.Map).Range.
+func (m *Map) Range(f func(key, value interface{}) bool) {
+	if !m.ctl(false) {
+		m.real.Range(f)
+		return
+	}
+	for _, k := range append([]interface{}{}, m.keys...) {
+		if v, ok := m.m[k]; ok {
+			if !f(k, v) {
+				return
+			}
+		}
+	}
+}
+
+// Cond replaces sync.Cond.
+type Cond struct {
+	L       Locker
+	obj     rt.Obj
+	real    *sync.Cond
+	waiters int
+	signals int
+}
+
+// NewCond replaces sync.NewCond.
+func NewCond(l Locker) *Cond { return &Cond{L: l, real: sync.NewCond(l)} }
+
+// Wait replaces (*sync.Cond).Wait.
+func (c *Cond) Wait() {
+	if !rt.IsControlled() {
+		c.real.Wait()
+		return
+	}
+	if rt.Dead() {
+		return
+	}
+	if c.obj.Fresh() {
+		c.waiters, c.signals = 0, 0
+	}
+	c.waiters++
+	c.L.Unlock()
+	rt.Point(rt.OpRecv, &c.obj, func() bool { return c.signals > 0 })
+	c.signals--
+	c.waiters--
+	c.L.Lock()
+}
+
+// Signal replaces (*sync.Cond).Signal.
+func (c *Cond) Signal() {
+	if !rt.IsControlled() {
+		c.real.Signal()
+		return
+	}
+	if rt.Dead() {
+		return
+	}
+	c.obj.Fresh()
+	rt.Point(rt.OpSend, &c.obj, nil)
+	if c.signals < c.waiters {
+		c.signals++
+	}
+}
+
+// Broadcast replaces (*sync.Cond).Broadcast.
+func (c *Cond) Broadcast() {
+	if !rt.IsControlled() {
+		c.real.Broadcast()
+		return
+	}
+	if rt.Dead() {
+		return
+	}
+	c.obj.Fresh()
+	rt.Point(rt.OpSend, &c.obj, nil)
+	c.signals = c.waiters
 }
